@@ -282,7 +282,12 @@ def call_tscpar(impl, case, wrap, alloc=False, stripes=False):
     posa, w = arrays(case)
     buf, dens = guarded(case)
     try:
-        if stripes:
+        if stripes and stripes is not True:
+            # an ODD number of stripes is legal serially (nthread=1): the first pass has one stripe more than the
+            # second; dropping it loses the weight of the top 1/npartition of the box (seeded change C06-e)
+            out = impl.tsc.tsc_parallel(posa, dens, case['box'], weights=w, nthread=1, npartition=int(stripes), wrap=wrap,
+                                        offset=case['off'], coord=case.get('coord', 0))
+        elif stripes:
             # two stripes / two threads is accepted for every grid (one stripe per pass): the deposit must not
             # depend on the partitioning (perm_invariant), so the same model request applies
             out = impl.tsc.tsc_parallel(posa, dens, case['box'], weights=w, nthread=2, npartition=2, wrap=wrap,
@@ -644,6 +649,11 @@ def check_case(ctx, impl, case, plan):
                 if 'pos' in rps:
                     rps['pos'] = rp['pos']      # partitioning does not reorder the caller's array; wrap already compared
                 results.append(('tsc_parallel(2 stripes)', rps, i2, parse_tscpar, expected))
+                nodd = 3 if len(case['pos']) % 2 == 0 else 5
+                rpo = call_tscpar(impl, case, case['wrap'], stripes=nodd)
+                if 'pos' in rpo:
+                    rpo['pos'] = rp['pos']
+                results.append(('tsc_parallel(nthread=1, %d stripes)' % nodd, rpo, i2, parse_tscpar, expected))
             if case['grid0'] is None and case['ddt'] == 'f4':
                 rp2 = call_tscpar(impl, case, case['wrap'], alloc=True)
                 results.append(('tsc_parallel(shape)', rp2, i2, parse_tscpar, expected))
